@@ -60,6 +60,8 @@ def gen_pattern(rng, names, brackets=False):
 def gen_half(rng):
     return rng.choice([0, 1, 2, 3, 7, 10, 61, 200, 2 ** 40 + 1]) if rng.random() < 0.8 else rng.randint(0, 50)
 
+INF2 = 4 * 10 ** 9      # stands for +Inf in the doubled-integer encoding of bucket bounds
+
 def gen_point(rng):
     r = rng.random()
     if r < 0.1:
@@ -69,6 +71,8 @@ def gen_point(rng):
     if r < 0.7:
         nb = rng.randint(0, 4)
         bounds2 = sorted(rng.sample(range(0, 40), nb))
+        if nb and rng.random() < 0.12:
+            bounds2[-1] = INF2          # an explicit +Inf upper boundary (ascending, accepted by MetricSpec and the SDK)
         r2 = rng.random()
         nc = nb + 1 if r2 < 0.6 else rng.choice([0, nb, nb + 2, nb + 4])
         counts = [rng.randint(0, 9) for _ in range(nc)]
@@ -91,7 +95,7 @@ def mk_metric(name, p):
     else:
         _, counts, bounds2, count, sum2 = p
         data = Histogram(data_points=[HistogramDataPoint({}, 0, 1, count, sum2 / 2, list(counts),
-                                                         [b / 2 for b in bounds2], 0.0, 0.0)],
+                                                         [float('inf') if b == INF2 else b / 2 for b in bounds2], 0.0, 0.0)],
                          aggregation_temporality=AggregationTemporality.CUMULATIVE)
     return Metric(name=name, description='', unit='', data=data)
 
@@ -128,7 +132,7 @@ def canon_facet(f):
     out = []
     for k, v in (f or {}).items():
         if isinstance(v, dict):
-            out.append([k, ['h', [int(round(b * 2)) for b in v['buckets']], list(v['counts']), v['count'],
+            out.append([k, ['h', [INF2 if b == float('inf') else int(round(b * 2)) for b in v['buckets']], list(v['counts']), v['count'],
                             int(round(v['sum'] * 2))]])
         else:
             out.append([k, canon_num(v)])
@@ -153,12 +157,15 @@ def oracle(run, allow, metrics, facet, case):
         elif not isinstance(v, (int, float)) or isinstance(v, bool):
             run.violation('non-numeric key=%r' % k, 'non numeric value exported', case)
 
-def run_export(allow, data):
-    lin = Lineage()
-    exp = OTelLineageExporter(lin, allowlist=(None if allow is None else set(allow)))
+def run_export(allow, data, exp=None):
+    """one export cycle; with `exp` given, one more cycle of an exporter that has exported before"""
+    if exp is None:
+        exp = OTelLineageExporter(Lineage(), allowlist=(None if allow is None else set(allow)))
+    lin = exp._lineage
+    n0 = len(lin.calls)
     exp.export(data)
-    assert len(lin.calls) <= 1
-    return lin.calls[0] if lin.calls else {}
+    assert len(lin.calls) - n0 <= 1
+    return lin.calls[-1] if len(lin.calls) > n0 else {}
 
 def gen_env(rng, names):
     r = rng.random()
@@ -198,20 +205,35 @@ def main():
 
         # ---- family 2: export gate ------------------------------------------
         cases = []
+        exporter, cycle, earlier = None, 0, []
         for i in range(N):
             metrics = [(gen_name(rng), gen_point(rng)) for _ in range(rng.randint(0, 6))]
-            names = [m[0] for m in metrics]
-            r = rng.random()
-            brackets = rng.random() < 0.08
-            if r < 0.08:
-                allow = None
-            elif r < 0.25:
-                allow = []
+            if exporter is not None and cycle < 3 and rng.random() < 0.6:
+                # one more cycle of the SAME exporter (it exports every few seconds for the life of the filter): what a cycle lets
+                # through depends on that cycle's metrics and the allow-list alone, never on what an earlier cycle exported.
+                # Names that earlier cycles put into the facet (a histogram 'x' goes out under the key 'x_histogram') come back
+                # as metric names of their own.
+                cycle += 1
+                if earlier and rng.random() < 0.5:
+                    metrics.insert(rng.randrange(len(metrics) + 1), (rng.choice(earlier), ('counter', gen_half(rng))))
             else:
-                allow = [gen_pattern(rng, names, brackets) for _ in range(rng.randint(1, 4))]
+                exporter, cycle, earlier = None, 0, []
+                names = [m[0] for m in metrics]
+                r = rng.random()
+                brackets = rng.random() < 0.08
+                if r < 0.08:
+                    allow = None
+                elif r < 0.25:
+                    allow = []
+                else:
+                    allow = [gen_pattern(rng, names, brackets) for _ in range(rng.randint(1, 4))]
+                exporter = OTelLineageExporter(Lineage(), allowlist=(None if allow is None else set(allow)))
+            names = [m[0] for m in metrics]
             data = mk_data(rng, metrics)
-            facet = run_export(allow, data)
-            case = dict(allow=allow, metrics=metrics)
+            facet = run_export(allow, data, exporter)
+            earlier = sorted(set(earlier) | set(facet) | {n + '_histogram' for n in facet})
+            case = dict(allow=allow, metrics=metrics, cycle=cycle)
+            run.count('export:cycle=%d' % cycle)
             oracle(run, allow, metrics, facet, case)
             run.count('export:allow=%s' % ('none' if allow is None else 'empty' if not allow else 'list'))
             run.count('export:facet_keys=%d' % min(len(facet), 4))
